@@ -86,6 +86,12 @@ $(B)/$(2)/$(1): $(B)/$(2)/$(1).o $(B)/$(2)/libtsg.a $(B)/simrt.o $(3)
 endef
 ENGINES_thr := c18 c12
 $(foreach e,$(ENGINES_thr),$(eval $(call ENGINE_RULE_SIM,$(e),thr,)))
+# C17 parallel mode: engines/c17.cpp compiled with -DC17_PARALLEL in the thr flavour
+$(B)/thr/c17p.o: engines/c17.cpp $(SIMHDR) $(B)/config/TasmanianConfig.hpp
+	@mkdir -p $(B)/thr
+	$(CXX) -std=c++17 $(GUARD) -DC17_PARALLEL $(FLAGS_thr) $(INC) -I. -MMD -MP -c engines/c17.cpp -o $@
+$(B)/thr/c17p: $(B)/thr/c17p.o $(B)/thr/libtsg.a $(B)/simrt.o
+	$(CXX) -g -no-pie $(B)/thr/c17p.o $(B)/thr/libtsg.a $(B)/simrt.o -lpthread -ldl -o $@
 # C13: OpenMP build under the simulated libgomp + renamed serial reference in the same executable
 $(B)/refns/c13ref.o: engines/c13ref.cpp engines/c13_common.hpp $(SIMHDR) $(B)/config/TasmanianConfig.hpp
 	@mkdir -p $(B)/refns
@@ -94,7 +100,7 @@ $(eval $(call ENGINE_RULE_SIM,c13,omp,$(B)/refns/c13ref.o $(B)/refns/libtsg.a))
 $(B)/omp/c13.o: engines/c13_common.hpp
 
 .PHONY: all clean $(addprefix eng-,$(ENGINES_asan))
-all: $(foreach e,$(ENGINES_asan),$(B)/asan/$(e)) $(foreach e,$(ENGINES_thr),$(B)/thr/$(e)) $(B)/omp/c13
+all: $(foreach e,$(ENGINES_asan),$(B)/asan/$(e)) $(foreach e,$(ENGINES_thr),$(B)/thr/$(e)) $(B)/thr/c17p $(B)/omp/c13
 clean:
 	rm -rf $(B)
 
